@@ -1,4 +1,5 @@
 import Secp.Proofs.GroupLaw
+import Secp.Proofs.ElementApiTies
 import Secp.Proofs.LimbGroup
 /-!
 # C02 — Add, Double, Subtract, Negate implement the group law with no exceptional cases
@@ -59,5 +60,15 @@ theorem argument_untouched : ("Curve.addProjectiveComplete_eu_v", ["v"]) ∈ Fac
 -- non-vacuity: the base point, and (0 : 1 : 0), are `Valid`; so is everything the operations above produce from them
 example : Valid Hand.ElementL.base := base_valid
 example : Valid (identity F) := identity_valid limbLawful
+
+/-- the API methods of `element.go` are regenerated from their Go bodies on every run (callees inlined on shared cells,
+one definition per aliasing pattern, nil as `none`); the model the theorems above are about *is* the regenerated method -/
+theorem api_methods_tied {α : Type} (F : FieldOps α) (e : Pt α) (v : Option (Pt α)) :
+    GenElementAPI.add_e_v F e v = Hand.Element.add F e v ∧ GenElementAPI.add_ev F e = Hand.Element.addSelf F e ∧
+    GenElementAPI.double F e = Hand.Element.double F e ∧ GenElementAPI.negate F e = Hand.Element.negate F e ∧
+    GenElementAPI.subtract_e_v F e v = Hand.Element.subtract F e v ∧
+    GenElementAPI.subtract_ev F e = Hand.Element.subtract F e (some e) ∧
+    GenElementAPI.identity F = Hand.Element.identity F :=
+  ⟨ElementApiTies.add_tie F e v, rfl, rfl, rfl, ElementApiTies.subtract_tie F e v, rfl, rfl⟩
 
 end C02
